@@ -301,7 +301,7 @@ Lemma In_sq p s : wf_pos p -> In s (board p) -> exists v, on_board p v /\ sq p (
 Proof.
   intros (Hn & Hlen) Hs. destruct (In_nth _ _ [] Hs) as (i & Hi & Hnth).
   unfold zlen in Hlen.
-  assert (Hiz : 0 <= Z.of_nat i < size p * size p) by lia.
+  assert (Hiz : 0 <= Z.of_nat i < size p * size p) by (unfold stack in *; lia).
   destruct (idx_coords (size p) (Z.of_nat i) Hn Hiz) as (Hx & Hy & E).
   exists (Z.of_nat i mod size p, Z.of_nat i / size p). split; [split; assumption|].
   rewrite sq_nth. simpl fst. simpl snd. rewrite E, Nat2Z.id. assumption.
@@ -339,8 +339,9 @@ Proof.
   induction l as [|x l IH] using rev_ind; [reflexivity|].
   rewrite app_length. simpl length. rewrite Nat.add_1_r, seq_S, !filter_app, !app_length.
   simpl. rewrite nth_middle. f_equal.
-  rewrite <- IH. f_equal. apply filter_ext_in. intros i Hi. apply in_seq in Hi.
-  rewrite app_nth1 by lia. reflexivity.
+  - rewrite <- IH. f_equal. apply filter_ext_in. intros i Hi. apply in_seq in Hi.
+    rewrite app_nth1 by lia. reflexivity.
+  - destruct (f x); reflexivity.
 Qed.
 
 Definition coords (n i : Z) : sqr := (i mod n, i / n).
